@@ -239,6 +239,10 @@ func (s *ForRange) stmt(b *strings.Builder, ind int) {
 		b.WriteString("..")
 	}
 	s.Hi.src(b)
+	if s.Step != nil {
+		b.WriteString(":")
+		s.Step.src(b)
+	}
 	b.WriteString(" ")
 	block(b, s.Body, ind)
 	b.WriteString("\n")
